@@ -16,10 +16,15 @@ All paths of main (config `cmdline`, crate `jsonlogic`):
   K3  data source: the data text is the second argument unless it is absent
       (defaulted to the constant "-") or equals "-"; exactly then it is read to
       the end from stdin; the stdin read happens on that edge only;
-  K4  exit status: main returns Result<(), _>; every failure edge returns the
-      residual (`?`), no Result is discarded with ok()/unwrap_or*/is_err in the
-      binary; no process::exit;
-  K5  Cargo manifest: the binary `jsonlogic` requires feature `cmdline`.
+  K4  exit status: every failure edge either returns the residual (`?`, main
+      returning Result<(), _>) or ends in a handler that never returns and exits
+      with a constant status that is non-zero modulo 256 (the OS keeps 8 bits); no
+      Result is discarded with ok()/unwrap_or*/is_err in the binary;
+  K5  Cargo manifest: the binary `jsonlogic` requires feature `cmdline`; enabling
+      that feature changes the resolved feature set of no package the library
+      itself is built from (cargo unifies features: `serde_json/arbitrary_precision`
+      behind `cmdline` would make the command wrap a different library); the
+      binary calls nothing of the library but the public apply.
 Not decided: serde_json's serialiser/parser, clap's own parsing, broken pipes.
 """
 import os, re, tomllib
@@ -53,10 +58,16 @@ def decode_fmt(hexs):
     return out
 
 
+_HANDLED = set()   # blocks of main whose unwrap_or_else handler never returns: the call yields the success payload
+
+
 def peel(e):
-    """strip_payload + anyhow's context()/with_context() (payload-transparent)."""
+    """strip_payload + anyhow's context()/with_context() (payload-transparent) + unwrap_or_else(never-returning handler)."""
     while True:
         e2 = strip_payload(e)
+        if e2[0] == "call" and e2[1] and e2[1]["path"] == "std::result::Result::<T, E>::unwrap_or_else" and e2[3] in _HANDLED:
+            e = e2[2][0]
+            continue
         if e2[0] == "call" and e2[1] and "anyhow::Context<" in e2[1]["path"] and e2[1]["path"].split("::")[-1].startswith(("context", "with_context")):
             e = e2[2][0]
             continue
@@ -73,6 +84,8 @@ def run(ctx):
     m = mains[0]
     bodies = [b for b in facts.fns()]
     # ---------------- K1
+    _HANDLED.clear()
+    _HANDLED.update(bi for (b, bi, _) in failure_handlers(facts, bodies)[0] if b is m)
     prints = [(b, bi, t) for b in bodies for bi, t in b.calls() if callee_path(t) in (PRINT,)]
     other_out = [(b, bi, callee_path(t)) for b in bodies for bi, t in b.calls() if re.search(r"^std::io::(stdout|Stdout)|^<std::io::Stdout(Lock<'_>)? as std::io::Write>", callee_path(t) or "")]
     ctx.check(len(prints) == 1 and prints[0][0] is m and not other_out, "K1.single-print", "exactly one stdout write in the binary, in main",
@@ -101,8 +114,34 @@ def run(ctx):
                         if x[0] == "call" and x[3] == bi:
                             sw = sb
             branches.append((bi, what, sw))
-    ctx.floor("fallible steps (`?`) in main", len(branches), 1)
+    # fallible steps handled by a handler that never returns (unwrap_or_else(|e| { …; exit(n) })): the call returns only on success
+    handled, droppers, exits = failure_handlers(facts, bodies)
+    hsteps = []
+    for (b, bi, what) in handled:
+        if b is m:
+            src = peel(m.trace(m.blocks[bi]["term"]["args"][0]))
+            hsteps.append((bi, src[1]["path"] if src[0] == "call" and src[1] else show_expr(src)))
+    # ---------------- K4 (binary-wide facts first: they hold whatever shape main has)
+    it = facts.items[m.key]
+    if branches:
+        ctx.check(it["output"].startswith("std::result::Result<(), "), "K4.returns-result", "main returns Result<(), _>", "main returns %s although it propagates failures with `?`" % it["output"], where=m.where(), fn=m.key)
+    for b, bi, p_ in droppers:
+        ctx.fail("K4.error-dropped", "%s@%s" % (b.key.split("::", 1)[1], p_.rsplit("::", 1)[1]), "the binary discards a failure with %s — a failing run may end with status 0 or print a result" % p_, where=b.where(bi), fn=b.key)
+    if not droppers:
+        ctx.ok("K4.error-dropped", "no Result is discarded in the binary", nontrivial=True)
+    for (b, bi, vals) in exits:
+        after_print = b is m and bi in m.reachable(pbi)
+        if vals is None:
+            ctx.fail("K4.exit-status", "%s@exit" % b.key.split("::", 1)[1], "the binary exits with a status that is not a known constant", where=b.where(bi), fn=b.key)
+            continue
+        bad = sorted(v for v in vals if v % 256 == 0)
+        ctx.check(not bad or after_print, "K4.exit-status", "process::exit in %s: status ∈ %s, non-zero modulo 256" % (b.key.split("::", 1)[1], sorted(vals)),
+                  "a failure handler exits with status %s, which the operating system reports as 0 (only the low 8 bits count): the failing run looks successful" % bad, where=b.where(bi), fn=b.key, nontrivial=True)
+    ctx.floor("fallible steps (`?` or handler that exits) in main", len(branches) + len(hsteps), 3)
     reach_from_print = m.reachable(pbi)
+    for bi, what in hsteps:
+        ctx.check(bi not in reach_from_print, "K1.print-last", "no fallible step after the print (%s)" % short(what),
+                  "the fallible step %s can run after the result line has been printed" % short(what), where=m.where(bi), fn=m.key, nontrivial=True)
     for bi, what, sw in branches:
         ctx.need(sw is not None, "`?` at bb%d has no switch" % bi)
         cont = switch_edges_for_variant(m, sw, "Continue")
@@ -127,7 +166,10 @@ def run(ctx):
     # after the print: straight to Ok(())
     with m.restricted(reach_from_print):
         r = m.trace(0)
-    ctx.check(r[0] == "agg" and r[1].get("variant") == "Ok", "K1.then-ok", "after printing main returns Ok(())", "after the print main returns %s" % show_expr(r), where=m.where(pbi), fn=m.key)
+    if it["output"] != "()":
+        ctx.check(r[0] == "agg" and r[1].get("variant") == "Ok", "K1.then-ok", "after printing main returns Ok(())", "after the print main returns %s" % show_expr(r), where=m.where(pbi), fn=m.key)
+    no_exit_after = not any(b is m and bi in reach_from_print and vals and any(v % 256 for v in vals) for (b, bi, vals) in exits)
+    ctx.check(no_exit_after, "K1.then-ok", "after printing, main does not exit with a failure status", "main can exit non-zero after printing the result", where=m.where(pbi), fn=m.key)
 
     # ---------------- K2
     a = strip_refs(m.trace(pterm["args"][0]))
@@ -235,28 +277,49 @@ def run(ctx):
                     arg_def = dd
     ctx.check(arg_def is not None, "K3.argument-verbatim", "otherwise the data text is the second argument verbatim", "no definition of the data text as the data argument itself on the non-\"-\" edge", where=m.where(sb), fn=m.key, nontrivial=True)
 
-    # ---------------- K4
-    it = facts.items[m.key]
-    ctx.check(it["output"].startswith("std::result::Result<(), "), "K4.returns-result", "main returns Result<(), _>", "main returns %s" % it["output"], where=m.where(), fn=m.key)
-    droppers = []
-    for b in bodies:
-        for bi, t in b.calls():
-            p = callee_path(t) or ""
-            if p.startswith("std::result::Result::<T, E>::") and p.rsplit("::", 1)[1] in ("ok", "unwrap_or", "unwrap_or_else", "unwrap_or_default", "is_ok", "is_err", "err", "map_or", "map_or_else", "or", "or_else"):
-                droppers.append((b, bi, p))
-            if p in ("std::process::exit", "std::process::abort"):
-                droppers.append((b, bi, p))
-    for b, bi, p in droppers:
-        ctx.fail("K4.error-dropped", "%s@%s" % (b.key.split("::", 1)[1], p.rsplit("::", 1)[1]), "the binary discards a failure or exits directly with %s — a failing run may end with status 0 or print a result" % p, where=b.where(bi), fn=b.key)
-    if not droppers:
-        ctx.ok("K4.error-dropped", "no Result is discarded and no process::exit in the binary", nontrivial=True)
-
     # ---------------- K5
     man = tomllib.load(open(os.path.join(ex.REPO, "Cargo.toml"), "rb"))
     bins = [b for b in man.get("bin", []) if b.get("name") == "jsonlogic"]
     ctx.check(len(bins) == 1 and "cmdline" in bins[0].get("required-features", []), "K5.manifest", "[[bin]] jsonlogic requires feature cmdline", "Cargo.toml [[bin]] entries: %s" % man.get("bin"), where="Cargo.toml")
+    from . import manifest as MF
+    changes, npk = MF.library_config_changes("cmdline")
+    ctx.floor("packages of the library build compared across configurations", npk, 10)
+    ctx.check(not changes, "K5.same-library", "feature cmdline leaves every package of the library build configured as in the default build (%d packages, cargo's resolver)" % npk,
+              "enabling feature cmdline reconfigures packages the library itself is built from: %s — the command no longer wraps the library other users get" % "; ".join("%s +%s -%s" % (p_, sorted(a), sorted(r_)) for p_, a, r_ in changes),
+              where="Cargo.toml", nontrivial=True, sample={"packages": npk, "changes": [(p_, sorted(a), sorted(r_)) for p_, a, r_ in changes]})
     lib_calls = sorted({callee_path(t) for b in bodies for _, t in b.calls() if callee_of(t) and callee_of(t)["crate"] == "jsonlogic_rs"})
     ctx.check(lib_calls == ["jsonlogic_rs::apply"], "K5.only-apply", "the binary uses only the library's public apply", "library functions used by the binary: %s" % lib_calls, where=m.where(), fn=m.key)
+
+
+def diverging(b):
+    """No reachable Return: every path ends in a call that never returns."""
+    return not any(b.blocks[bi]["term"]["k"] == "Return" for bi in b.reachable() if not b.blocks[bi]["cleanup"])
+
+
+def failure_handlers(facts, bodies):
+    """(handled, droppers, exits): Result combinators whose handler never returns; Result combinators that
+    can swallow a failure; process::exit/abort sites with the value set of the status."""
+    handled, droppers, exits = [], [], []
+    for b in bodies:
+        for bi, t in b.calls():
+            p = callee_path(t) or ""
+            if p.startswith("std::result::Result::<T, E>::") and p.rsplit("::", 1)[1] in ("ok", "unwrap_or", "unwrap_or_else", "unwrap_or_default", "is_ok", "is_err", "err", "map_or", "map_or_else", "or", "or_else"):
+                h = None
+                if p.rsplit("::", 1)[1] == "unwrap_or_else" and len(t["args"]) == 2:
+                    e = strip_refs(b.trace(t["args"][1]))
+                    if e[0] == "agg" and e[1].get("closure"):
+                        h = facts.body(e[1]["closure"])
+                    elif e[0] == "const" and "fn" in e[1]:
+                        h = facts.body(e[1]["fn"].get("key"))
+                if h is not None and diverging(h):
+                    handled.append((b, bi, p))
+                else:
+                    droppers.append((b, bi, p))
+            if p == "std::process::abort":
+                exits.append((b, bi, {134}))
+            if p == "std::process::exit":
+                exits.append((b, bi, PN.value_set(facts, b, b.trace(t["args"][0]))))
+    return handled, droppers, exits
 
 
 def short(p):
